@@ -71,8 +71,9 @@ def eval_cell(a5, geo, c, r, cls, ctx):
     if verdict == 'held':
         ctx.maxi('area_rel_err_held', abs(e), case)
         ctx.maxi('segments_needed', s, case)
-        if r >= 20:
-            ctx.maxi('area_err_times_width_rad_r20plus', abs(e) * geo.width(r), case)
+        if r >= 27:
+            # at the deepest levels with the edges resolved the residual is vertex noise: error x width in rad (allowance 5e-14)
+            ctx.maxi('area_noise_rad_r27plus', abs(e) * geo.width(r), case)
     elif verdict == 'violated':
         ctx.fail('area', case, rel_err=e, envelope=E, segments=s, tol=tol)
     else:
